@@ -17,11 +17,18 @@ use std::iter::Peekable;
 use std::time::Instant;
 
 /// Drains all blobs that come "before" the given vptr.
+///
+/// Returns the drained blobs that belong to the same key: they may still be referenced by
+/// another version of that key, because the order of a key's versions in the table stream
+/// (which includes the global seqno of ingested tables) is not necessarily the order of its
+/// blobs in the blob scanner (ingested blobs are written with seqno 0).
 fn drain_blobs<I: Iterator<Item = crate::Result<(ScanEntry, BlobFileId)>>>(
     scanner: &mut Peekable<I>,
     key: &[u8],
     vptr: &BlobIndirection,
-) -> crate::Result<()> {
+) -> crate::Result<Vec<(ScanEntry, BlobFileId)>> {
+    let mut same_key = vec![];
+
     loop {
         let Some(blob) = scanner.next_if(|x| match x {
             Ok((entry, blob_file_id)) => {
@@ -33,12 +40,16 @@ fn drain_blobs<I: Iterator<Item = crate::Result<(ScanEntry, BlobFileId)>>>(
         }) else {
             break;
         };
-        let (entry, _) = blob?;
+        let (entry, blob_file_id) = blob?;
 
         assert!(entry.key <= key, "vptr was not matched with blob");
+
+        if entry.key == key {
+            same_key.push((entry, blob_file_id));
+        }
     }
 
-    Ok(())
+    Ok(same_key)
 }
 
 pub(super) fn prepare_table_writer(
@@ -139,6 +150,9 @@ pub struct RelocatingCompaction {
     blob_writer: BlobFileWriter,
     rewriting_blob_file_ids: HashSet<BlobFileId>,
     rewriting_blob_files: Vec<BlobFile>,
+
+    /// Blobs of the current key that were drained while looking for another blob of that key
+    skipped_blobs: Vec<(ScanEntry, BlobFileId)>,
 }
 
 impl RelocatingCompaction {
@@ -154,12 +168,35 @@ impl RelocatingCompaction {
             blob_writer,
             rewriting_blob_file_ids: rewriting_blob_files.iter().map(BlobFile::id).collect(),
             rewriting_blob_files,
+            skipped_blobs: Vec::new(),
         }
     }
 
     // TODO: vvv validate/unit test this vvv
     fn drain_blobs(&mut self, key: &[u8], indirection: &BlobIndirection) -> crate::Result<()> {
-        drain_blobs(&mut self.blob_scanner, key, indirection)
+        // NOTE: Blobs of previous keys cannot be referenced anymore
+        self.skipped_blobs.retain(|(entry, _)| entry.key == key);
+
+        let skipped = drain_blobs(&mut self.blob_scanner, key, indirection)?;
+        self.skipped_blobs.extend(skipped);
+
+        Ok(())
+    }
+
+    /// Takes the blob the vptr points to, if it was already drained from the scanner
+    /// while looking for another blob of the same key.
+    fn take_skipped_blob(
+        &mut self,
+        key: &[u8],
+        indirection: &BlobIndirection,
+    ) -> Option<(ScanEntry, BlobFileId)> {
+        let idx = self.skipped_blobs.iter().position(|(entry, blob_file_id)| {
+            entry.key == key
+                && *blob_file_id == indirection.vhandle.blob_file_id
+                && entry.offset == indirection.vhandle.offset
+        })?;
+
+        Some(self.skipped_blobs.swap_remove(idx))
     }
 }
 
@@ -182,13 +219,18 @@ impl CompactionFlavour for RelocatingCompaction {
                 .rewriting_blob_file_ids
                 .contains(&indirection.vhandle.blob_file_id)
             {
-                self.drain_blobs(&item.key.user_key, &indirection)?;
+                let (blob_entry, blob_file_id) = if let Some(blob) =
+                    self.take_skipped_blob(&item.key.user_key, &indirection)
+                {
+                    blob
+                } else {
+                    self.drain_blobs(&item.key.user_key, &indirection)?;
 
-                #[expect(clippy::expect_used, reason = "vptr is expected to match with blob")]
-                let (blob_entry, blob_file_id) = self
-                    .blob_scanner
-                    .next()
-                    .expect("vptr was not matched with blob (scanner is unexpectedly exhausted)")?;
+                    #[expect(clippy::expect_used, reason = "vptr is expected to match with blob")]
+                    self.blob_scanner.next().expect(
+                        "vptr was not matched with blob (scanner is unexpectedly exhausted)",
+                    )?
+                };
 
                 assert_eq!(
                     blob_file_id, indirection.vhandle.blob_file_id,
